@@ -1870,7 +1870,7 @@ class NpProxy:
             if _contains_sym_arg(args, kw):
                 args = tuple(_box(a) for a in args)
                 r = uf(*args, **kw)
-                return unwrap0(normalize(r)) if not kw.get('out') else r
+                return unwrap0(normalize(r)) if kw.get('out') is None else r
             return uf(*args, **kw)
         call.__name__ = uf.__name__
         for m in ('reduce', 'outer', 'accumulate', 'at'):
@@ -1941,17 +1941,36 @@ class NpProxy:
             return r.view(SymArr)
         return np.ones(src.shape, dtype=d)
 
+    @staticmethod
+    def _cast_real(r, dtype):
+        """numpy casts complex data to a real dtype by discarding the imaginary part (ComplexWarning): same here"""
+        if dtype is None or np.dtype(dtype).kind != 'f':
+            return r
+        if isinstance(r, np.ndarray) and r.dtype == object:
+            if builtins.any(isinstance(v, (SymC, complex, np.complexfloating)) for v in r.flat):
+                return _elementwise(_el_real, r).view(SymArr)
+        return r
+
     def array(self, obj, dtype=None, **kw):
         if has_sym(obj) or isinstance(obj, SymArr) or _deep_has_sym(obj):
             r = _build_object_array(obj)
-            return normalize(r.view(SymArr))
+            return normalize(self._cast_real(r.view(SymArr), dtype))
+        if isinstance(obj, np.ndarray) and obj.dtype == object and dtype is not None and np.dtype(dtype).kind == 'f':
+            obj = normalize(obj.view(SymArr))
         return np.array(obj, dtype=dtype, **kw)
 
     def asarray(self, obj, dtype=None, **kw):
         if isinstance(obj, SymArr):
+            if dtype is not None and np.dtype(dtype).kind == 'f':
+                if has_sym(obj):
+                    return normalize(self._cast_real(obj, dtype))
+                obj = normalize(obj)
+                if isinstance(obj, SymArr):
+                    return obj
+                return np.asarray(obj, dtype=dtype, **kw)
             return obj
         if has_sym(obj) or _deep_has_sym(obj):
-            return self.array(obj)
+            return self.array(obj, dtype=dtype)
         return np.asarray(obj, dtype=dtype, **kw)
 
     def asanyarray(self, obj, dtype=None, **kw):
